@@ -116,6 +116,30 @@ Proof.
     + apply Z.ltb_ge in E. apply Z.leb_le. exact E.
 Qed.
 
+(* at the call sites: because the regenerated funds_payer_same is true, the fork and the debit concern one account,
+   and every valuation is covered whatever the other account's balance is *)
+Lemma funds_site_complete : forall balc bald val v,
+  oracle_sound -> path v ->
+  exists fails c, In (fails, c) (funds_site_alternatives V chk balc bald val) /\ c v = true.
+Proof.
+  intros balc bald val v Hor Hp.
+  assert (Hsame : funds_payer_same = true) by reflexivity.
+  unfold funds_site_alternatives. rewrite Hsame.
+  exact (funds_complete balc val v Hor Hp).
+Qed.
+
+(* why the flag matters: a fork on one account and a debit of another leaves an input uncovered *)
+Lemma funds_two_accounts_uncovered :
+  forall balc bald val v, val v <= balc v -> bald v < val v ->
+  forall fails c, In (fails, c) ((if funds_fail_keep (chk (fun v => balc v <? val v)) then [(true, fun v => balc v <? val v)] else []) ++
+                               [(false, fun v => val v <=? bald v)]) -> c v = false.
+Proof.
+  intros balc bald val v H1 H2 fails c Hin. apply in_app_or in Hin. destruct Hin as [Hin|Hin].
+  - destruct (funds_fail_keep _); [|destruct Hin]. destruct Hin as [Heq|[]]. inversion Heq; subst.
+    apply Z.ltb_ge. exact H1.
+  - destruct Hin as [Heq|[]]. inversion Heq; subst. apply Z.leb_gt. exact H2.
+Qed.
+
 (* exactly one of the two alternatives holds under a valuation: never both outcomes for one input *)
 Lemma funds_exclusive : forall bal val c1 c2 v,
   In (true, c1) (funds_alternatives V chk bal val) -> In (false, c2) (funds_alternatives V chk bal val) ->
